@@ -178,8 +178,10 @@ def main(argv=None):
     if t is None:
       skipped += 1
       continue
-    terms.append(t)
-    term_idx.append(i)
+    # a case may translate into several model cases (e.g. one per message of a sequence)
+    for tt in (t if isinstance(t, (list, tuple)) else [t]):
+      terms.append(tt)
+      term_idx.append(i)
   diverging = []
   details = {}
   coq_err = None
@@ -187,7 +189,7 @@ def main(argv=None):
     failing, det, coq_err = C.coq_eval(pid, mod.COQ_HEADER, mod.COQ_CASE_TYPE, mod.COQ_CHECK, terms,
                                        shard=getattr(mod, 'SHARD', 300),
                                        explain_fn=getattr(mod, 'COQ_EXPLAIN', None))
-    diverging = [term_idx[k] for k in failing]
+    diverging = sorted(set(term_idx[k] for k in failing))
     details = {term_idx[k]: v for k, v in det.items()}
   if coq_err:
     broken.append('correspondence: model evaluation failed: ' + coq_err[:600])
@@ -198,7 +200,7 @@ def main(argv=None):
   if os.environ.get('VERIF_DEBUG') and (diverging or coq_err):
     with open(os.path.join(C.BUILD, 'debug_%s.json' % pid), 'w') as f:
       json.dump({'coq_err': coq_err, 'diverging': [{'index': i, 'case': cases[i], 'obs': obs[i], 'model': details.get(i),
-                                                      'term': terms[term_idx.index(i)][:20000]} for i in diverging[:10]]}, f, indent=1, default=repr)
+                                                      'term': str(terms[term_idx.index(i)])[:20000]} for i in diverging[:10]]}, f, indent=1, default=repr)
 
   # ---- 4. verdict ----------------------------------------------------------------------------
   viol = [(i, s, m) for i, ms in enumerate(mon) for (s, m) in ms]
@@ -330,7 +332,7 @@ def replay(mod, pid, path):
   except Exception as e:
     print('to_coq failed:', e)
   if t is not None:
-    failing, det, err = C.coq_eval(pid, mod.COQ_HEADER, mod.COQ_CASE_TYPE, mod.COQ_CHECK, [t],
+    failing, det, err = C.coq_eval(pid, mod.COQ_HEADER, mod.COQ_CASE_TYPE, mod.COQ_CHECK, list(t) if isinstance(t, (list, tuple)) else [t],
                                    explain_fn=getattr(mod, 'COQ_EXPLAIN', None))
     print('model agrees with implementation:', not failing and not err)
     if det:
